@@ -8,7 +8,11 @@ from ..common import PropertyViolation
 json_payload = st.recursive(
   st.one_of(st.none(), st.booleans(), st.integers(), st.floats(allow_nan=False, allow_infinity=False),
             st.text()),
-  lambda ch: st.one_of(st.lists(ch, max_size=4), st.dictionaries(st.text(max_size=6), ch, max_size=4)),
+  # keys include the ones the wire format itself uses: a payload may carry a forwarded event record
+  lambda ch: st.one_of(st.lists(ch, max_size=4),
+                       st.dictionaries(st.one_of(st.text(max_size=6),
+                                                 st.sampled_from(["signal_name", "payload", "signal"])),
+                                       ch, max_size=4)),
   max_leaves=12)
 
 
@@ -37,8 +41,8 @@ class C26(Prop):
   thorough_examples = 20000
   rule = ("Hypothesis st.text() signal names (any Unicode except surrogates, including the empty "
           "string and names of built-in signals) x recursive JSON-representable payloads (None, "
-          "booleans, arbitrary-size integers, finite floats, text, lists, string-keyed dicts; up to "
-          "12 leaves), sent through Event.dumps then Event.loads; a third of the cases instead "
+          "booleans, arbitrary-size integers, finite floats, text, lists, string-keyed dicts whose keys include 'signal_name' and "
+          "'payload' themselves; up to 12 leaves), sent through Event.dumps then Event.loads; a third of the cases instead "
           "build the JSON text by hand (as a foreign process would) for a name that may be new. "
           "Oracle (round-trip): same signal name, payload equal with identical JSON types, signal "
           "number equal to the number this process binds to that name (unchanged for known names, "
